@@ -20,6 +20,13 @@ CHECKS["C12"] = dict(
     note="Trusted: Coq kernel incl. vm_compute; the fail-closed translator mathtable.py (literal table rows, textual normal form of add_function_mapping and find_known_functions.visit_Call, README regex, builtins' __module__ from the interpreter); the hand-written <cmath> signature table; what each std:: function computes (C library). Traces are tests.",
     technique="Coq proof by computation over a table regenerated from source + end-to-end traces",
 )
+CHECKS["C02"] = dict(
+    category="proof",
+    text="Coq proves, for ALL programs of the C++-subset IR, all events, all member states and all event sequences, that the static checkers are sound for the execution semantics: well_scoped (every occurrence refers to a member, an enclosing block's declaration made earlier, or an enclosing loop variable) excludes every stuck-on-unbound-name outcome of run_event/run_job; unique_decls (NoDup of members, block declarations and loop variables) implies that at every program position no binding is shadowed (lookup returns the unique declaration); types_ok excludes push_back/clear on a non-vector and % with a floating operand; refutation witnesses by computation for use-outside-block, read-before-declaration, duplicate member, % on double. The for-all-queries part is SAMPLED (translation validation): the extracted checkers run on the program parsed, with a printed-back round trip, from what the current translator emits for generated queries (all feature classes, three backends); completeness of the file set, the 0o755 mode, residual template directives, the slot/file tie and booking lines are runtime facts that are tested; in the thorough tier g++ -fsyntax-only against a stand-in data model generated from the declared universe is the independent oracle of 'compilable' and validates the checkers (agreement counts in the evidence).",
+    design_ref="5.2",
+    note="Level: proof of checker soundness + translation validation of sampled queries (not a proof about the translator). Trusted: Coq kernel; Cpp/IR.v + Cpp/Exec.v as the meaning of the emitted subset; the fail-closed emitted-text parser (every program is re-printed by the extracted printer and compared with the emitted lines); extraction + OCaml driver; qgen generator bounds; g++ 12 and the generated stand-in headers (the real ATLAS/CMS headers are absent: 'as declared'). types_ok_sound assumes events respect the declared method types (ev_ok). The generic template-rendering theorem is C14's.",
+    technique="Coq proof (mutual induction over stmt/block/stmts with a static-scope/dynamic-frames invariant) + verified-checker translation validation + g++ oracle",
+)
 NOT_YET = {}
 
 def main():
